@@ -12,7 +12,7 @@ RULE = ('statements are generated as source lines from a grammar - reads in expr
         'x = (o.a, o.b)), comparisons (==, !=, <, <=, >, >=, also as if/while conditions), assignments (o.a = k, o.a = o.a + k, '
         'o.a = o.b), augmented assignments to the attribute itself (all eleven operators), augmented assignments to other '
         'targets that read the attribute (x += o.a, o.b += o.a, p.a += o.a, and r.a += o.a / z.a += o.a where r and z are other objects with a same-named attribute), the documented lock form (_, _lock = o.a followed '
-        'by a with-block), two-statement lines, and a helper function whose one line (dst.a OP= src.a) is executed with different objects (the class, another class with a same-named attribute, a plain object, in both roles) - and executed by one simulated thread, 1-4 statements per run; after every '
+        'by a with-block), two-statement lines, and a helper function whose one line (dst.a OP= src.a) is executed with different objects (the class, another class with a same-named attribute, a plain object, in both roles), and statements inside a function that name module-level objects - and executed by one simulated thread, 1-4 statements per run; after every '
         'statement the kernel\'s own bookkeeping says whether the thread still owns the simulated RLock of any attribute, and '
         'afterwards a second thread reads every attribute of both instances (the observable the property names) and must '
         'complete; a second stratum runs two such threads at the same time under the seeded scheduler (bytecode granularity inside __get__/__set__) and asks the same question of each. Non-trivial = any run (every statement exercises the classifier); distinct = distinct statement texts '
@@ -84,6 +84,11 @@ def generate(seed, stratum, tier):
     for _ in range(rng.randrange(2, 6)):
       a, b = rng.choice(args)
       sts.append(['shared-line', 'bump(%s, %s)' % (a, b)])
+  elif rng.random() < 0.15:
+    # the statement sits inside a function and names module-level objects (globals of the function, not locals)
+    op = rng.choice(['+=', '-=', '|='])
+    body = rng.choice(['r.a %s o.a' % op, 'o.a %s r.a' % op, 'o.a %s 3' % op, 'z.a %s o.a' % op, 'p.a %s o.a' % op, 'x = o.a', 'if o.a >= 3: pass'])
+    sts = [['in-function-def', 'def gfn():\n  %s' % body]] + [['in-function', 'gfn()'] for _ in range(rng.randrange(1, 3))]
   return {'statements': sts, 'sched': {'gran': 'line', 'policy': 'sticky', 's': 1.0}}
 
 
@@ -99,7 +104,7 @@ def shrink_candidates(sc):
   s = sc['statements']
   if len(s) > 1:
     for i in range(len(s) - 1, -1, -1):
-      if s[i][0] == 'shared-line-def':
+      if s[i][0] in ('shared-line-def', 'in-function-def'):
         continue
       yield dict(sc, statements=s[:i] + s[i + 1:])
 
